@@ -76,6 +76,9 @@ type c10Shape struct {
 	// CleanWaiting: run Clean() (compaction / retention) while a subscription
 	// is waiting at the HW, just before the fence is appended.
 	CleanWaiting bool `json:"clean_while_subscription_waits,omitempty"`
+	// Parts: number of partitions of the stream (0 = 1); the requests always
+	// address partition 0, the others exist for resume-all (lifecycle unit).
+	Parts int32 `json:"partitions,omitempty"`
 }
 
 func (s c10Shape) label() string {
@@ -159,6 +162,14 @@ type c10Env struct {
 	seed   uint64
 	seq    int
 	rng    *kit.RNG
+	// lifecycle unit (c10_lifecycle_test.go): tag = the lifecycle event the
+	// request follows (goes into the fingerprint and the witness); reqMut
+	// adjusts the subscribe request (Resume); afterSub runs right after the
+	// subscribe call returned (the partition object may have been replaced).
+	tag      string
+	extra    map[string]any
+	reqMut   func(*client.SubscribeRequest)
+	afterSub func()
 }
 
 var c10StreamSeq atomic.Int64
@@ -262,7 +273,7 @@ func c10Build(rep *kit.Report, c *vfCluster, srv *Server, sh c10Shape, seed uint
 		stream: fmt.Sprintf("c10s%d", c10StreamSeq.Add(1))}
 	req := &client.CreateStreamRequest{Subject: e.stream + ".subj", Name: e.stream, ReplicationFactor: 1,
 		SegmentMaxBytes: &client.NullableInt64{Value: sh.SegBytes},
-		CleanerInterval: &client.NullableInt64{Value: 3600 * 1000}}
+		CleanerInterval: &client.NullableInt64{Value: 3600 * 1000}, Partitions: sh.Parts}
 	if sh.EmptyActive {
 		req.CleanerInterval = &client.NullableInt64{Value: 20}
 	}
